@@ -924,7 +924,9 @@ func c13Expected(k c13Case) (c13Expect, error) {
 
 func c13Oracle(k c13Case, run c13Run, exp *c13Expect, rundir string) []c12Problem {
 	var ps []c12Problem
-	bad := func(what string, obs, want any) { ps = append(ps, c12Problem{What: what, Observed: obs, Expected: want}) }
+	bad := func(what string, obs, want any) {
+		ps = append(ps, c12Problem{What: what, Observed: obs, Expected: want})
+	}
 	resolve := func(p string) string { return strings.ReplaceAll(p, "{ABS}", rundir) } // the name the file has in run.Files
 	preByPath := map[string]c13Pre{}
 	for _, p := range k.Pre {
@@ -1224,7 +1226,7 @@ func runC13(c *hc.Ctx) error {
 		}
 		cases = []c13Case{k}
 	} else {
-		n := c.N(150, 1500)
+		n := c.N(150, 3000)
 		if c.Search {
 			n *= 3
 		}
@@ -1236,7 +1238,7 @@ func runC13(c *hc.Ctx) error {
 			}
 			cases = append(cases, genC13Case(c.Rng, len(cases), cl))
 		}
-		for i := 0; i < c.N(2, 12); i++ {
+		for i := 0; i < c.N(2, 20); i++ {
 			k := genC13Case(c.Rng, len(cases), "hazard")
 			k.Race = true
 			cases = append(cases, k)
